@@ -2,10 +2,14 @@
 (* Model-checking / behaviour-generation wrapper of Oid4vci.tla *)
 EXTENDS Oid4vci, Json
 
-SubjW == <<"W">>
+SubjW  == <<"W">>
 SubjWA == <<"W", "A">>
 SubjWW == <<"W", "W">>
 SubjAW == <<"A", "W">>
+SubjWAW == <<"W", "A", "W">>
+
+NoneOff   == {{}}
+SingleOff == {{c} : c \in AllChecks}          \* every model that lacks exactly one check of the code
 
 WDone == wruns = MaxWRuns \/ ~(\E o \in offers : o.to = "W" /\ (Replay \/ o \notin handled))
 AllDone == Quiet /\ nflows = MaxOffers /\ asteps = MaxAtt /\ WDone
@@ -13,5 +17,12 @@ AllDone == Quiet /\ nflows = MaxOffers /\ asteps = MaxAtt /\ WDone
 Emit == (AllDone /\ Hist) => PrintT(ToJson(hist))
 \* simulation mode: print when the walk is quiet and the attacker has used his steps
 EmitSim == (Hist /\ Quiet /\ asteps = MaxAtt /\ nflows = MaxOffers) => PrintT(ToJson(hist))
+\* attack generation: the properties the code keeps; a model that lacks one check breaks them, and every distinct
+\* violating state yields one witness = an attack the real code must withstand
+Kept == ReleaseAuthorized /\ TokenFromLiveCode /\ OnlySubjectObtains /\ HolderStoresVerified
+EmitBad == (Hist /\ Quiet /\ ~Kept) => PrintT(ToJson(hist))
+\* the deviations: one witness per distinct state in which a property the code does NOT keep is broken
+Wanted == CodeSingleUse /\ AtMostOneRelease /\ ProofSingleUse /\ HolderStoresOwn /\ NoPanic
+EmitDev == (Hist /\ Quiet /\ ~Wanted) => PrintT(ToJson(hist))
 HistBound == Len(hist) <= 40
 =============================================================================
